@@ -169,7 +169,7 @@ class Engine:
                 by.setdefault(os.stat(p)[1:3], []).append(f)
             except OSError:
                 pass
-        return sorted(f for g in by.values() if len(g) > 1 for f in g)
+        return sorted({f for g in by.values() if len(set(g)) > 1 for f in g})
 
     def pool_obj(self, f):
         d = self.pool.by_file.get(f)
@@ -531,6 +531,13 @@ def pinned_classes(eng, mk):
     c = mk(["m01.so", "m06.so"], dirlink=True, statmap={anc[0]: "%d:40755" % OTHER_UID})
     c["pinned"] = "links"
     out.append(c)
+    # readdir() delivering an entry twice (it may, while the directory changes): the second one is "already loaded"
+    for files in (["m01.so", "m06.so", "m01.so"], ["m06.so", "m06.so"], ["m18.so", "m01.so", "m18.so", "m01.so"],
+                  ["m24.so", "m25.so", "m24.so", "m06.so"]):
+        c = mk(list(files))
+        c["_all_letters"] = True
+        c["pinned"] = "enumeration"
+        out.append(c)
     for kw in (dict(files=["m01.so", "m06.so"], opendir_fail=True), dict(files=[]), dict(files=[".", ".."]),
                dict(files=["x01.txt", "x05.d", "x06.so", "x02.so"]), dict(files=["m10.so", "m24.so"])):
         c = mk(list(kw.pop("files")), **kw)
